@@ -1,7 +1,9 @@
 package main
 
 import (
+	"context"
 	"flag"
+	"path/filepath"
 	"fmt"
 	"os"
 	"sort"
@@ -196,25 +198,67 @@ func expandFuncs(e *Engine, pats []string) []string {
 	return out
 }
 
-// runObligations discharges obligations in parallel.
+// runObligations discharges obligations in three phases so that machine load cannot turn a proof into
+// a timeout: (1) z3 5.x alone, short timeout, 16 at a time; (2) the full portfolio raced for what is
+// left; (3) one more portfolio attempt with a long timeout and little parallelism.
 func runObligations(obls []*Obligation, header *Universe, timeout time.Duration, all bool) {
-	sem := make(chan struct{}, 16)
-	var wg sync.WaitGroup
+	var todo []*Obligation
 	for _, o := range obls {
 		if o.Cond == "true" || o.Reach == "false" {
 			o.Status, o.Solver = "unsat", "syntactic"
 			continue
 		}
-		wg.Add(1)
-		sem <- struct{}{}
-		go func(o *Obligation) {
-			defer wg.Done()
-			defer func() { <-sem }()
-			r, _ := solve(o.Query(header, true), o.Name, timeout, all)
-			o.Status, o.Solver, o.Seconds, o.Output = r.Status, r.Solver, r.Seconds, r.Output
-		}(o)
+		todo = append(todo, o)
 	}
-	wg.Wait()
+	phase := func(list []*Obligation, par int, fn func(o *Obligation)) {
+		sem := make(chan struct{}, par)
+		var wg sync.WaitGroup
+		for _, o := range list {
+			wg.Add(1)
+			sem <- struct{}{}
+			go func(o *Obligation) {
+				defer wg.Done()
+				defer func() { <-sem }()
+				fn(o)
+			}(o)
+		}
+		wg.Wait()
+	}
+	pending := func() []*Obligation {
+		var p []*Obligation
+		for _, o := range todo {
+			if o.Status != "unsat" && o.Status != "sat" && o.Status != "disagree" {
+				p = append(p, o)
+			}
+		}
+		return p
+	}
+	if !all {
+		short := 4 * time.Second
+		if timeout < short {
+			short = timeout
+		}
+		phase(todo, 16, func(o *Obligation) {
+			q := o.Query(header, true)
+			r := runSolver(solvers[0], q, filepath.Join(getWorkDir(), fmt.Sprintf("p1_%d", time.Now().UnixNano())), short, context.Background())
+			o.Seconds += r.Seconds
+			if r.Status == "unsat" || r.Status == "sat" {
+				o.Status, o.Solver, o.Output = r.Status, r.Solver, r.Output
+			} else {
+				o.Status, o.Solver, o.Output = "unknown", r.Solver, r.Output
+			}
+		})
+	}
+	phase(pending(), 5, func(o *Obligation) {
+		r, _ := solve(o.Query(header, true), o.Name, timeout, all)
+		o.Status, o.Solver, o.Output = r.Status, r.Solver, r.Output
+		o.Seconds += r.Seconds
+	})
+	phase(pending(), 3, func(o *Obligation) {
+		r, _ := solve(o.Query(header, true), o.Name, 4*timeout, false)
+		o.Status, o.Solver, o.Output = r.Status, r.Solver, r.Output
+		o.Seconds += r.Seconds
+	})
 }
 
 // runCovers returns the obligations whose program point could not be shown reachable.
